@@ -1,6 +1,6 @@
 import LokiModel.C12.Lemmas
 /-!
-# C12: every step of the model refines the specification (outside the known-finding classes)
+# C12: every step of the model refines the specification
 -/
 namespace LokiModel.C12
 
@@ -149,24 +149,6 @@ theorem lookup_nonrec {s : St} {i : Nat} {t : Tab} (k : Name) (ht : s.tabs[i]? =
   simp only [lookup, lookupF, ht]
   cases alookup (fold k) t.ents <;> simp
 
-theorem raw_lookup {e : List (Name × Nat)} {k : Name} (he : EntsOk e)
-    (hK : (k != fold k && (alookup (fold k) e).isSome) = false) : alookup k e = alookup (fold k) e := by
-  by_cases hk : k = fold k
-  · exact congrArg (fun x => alookup x e) hk
-  · simp [hk] at hK
-    rw [hK]
-    cases h : alookup k e with
-    | none => rfl
-    | some v =>
-      have := he.1 _ (alookup_mem h)
-      exact absurd this.symm hk
-
-theorem raw_erase {e : List (Name × Nat)} {k : Name} {v : Nat} (he : EntsOk e) (h : alookup k e = some v) :
-    aerase k e = aerase (fold k) e := by
-  have := he.1 _ (alookup_mem h)
-  simp only at this
-  rw [this]
-
 theorem ref_new (s : St) (c : Nat) (hi : Inv s) : Ref s (.new c) := ⟨rfl, rfl, hi⟩
 
 theorem ref_mutate (s : St) (h c : Nat) (hi : Inv s) : Ref s (.mutate h c) := by
@@ -226,40 +208,50 @@ theorem ref_set (s : St) (i : Nat) (k : Name) (h : Nat) (hi : Inv s) : Ref s (.s
       · simp [step, specStep, ht, hh]
       · simp only [step, ht, hh]; exact inv_setEnts hi ht (entsOk_aset _ hm.1 (fold_idem k))
 
-/-- `setdefault`: the state refines the specification; the output is the known-finding class -/
-theorem ref_setdefault (s : St) (i : Nat) (k : Name) (h : Option Nat) (hi : Inv s) :
-    abs (step s (.setdefault i k h)).1 = (specStep (abs s) (.setdefault i k h)).1 ∧ Inv (step s (.setdefault i k h)).1 := by
+theorem ref_setdefault (s : St) (i : Nat) (k : Name) (h : Option Nat) (hi : Inv s) : Ref s (.setdefault i k h) := by
   cases ht : s.tabs[i]? with
   | none => constructor <;> simp [step, specStep, ht, hi]
   | some t =>
     have hm := hi.1 t (List.mem_of_getElem? ht)
     have core : ∀ c : Nat,
         abs (match alookup (fold k) t.ents with
-              | some _ => (s, Out.none)
-              | none => (setEnts s i t (aset (fold k) c t.ents), Out.none)).1 =
+              | some v => (s, Out.val v)
+              | none => (setEnts s i t (aset (fold k) c t.ents), Out.val c)).1 =
           (match (absTab t).map (fold k) with
               | some v => (abs s, Out.val v)
               | none => (aSetMap (abs s) i (absTab t) ((absTab t).map.upd (fold k) c), Out.val c)).1 ∧
+        (match alookup (fold k) t.ents with
+              | some v => (s, Out.val v)
+              | none => (setEnts s i t (aset (fold k) c t.ents), Out.val c)).2 =
+          (match (absTab t).map (fold k) with
+              | some v => (abs s, Out.val v)
+              | none => (aSetMap (abs s) i (absTab t) ((absTab t).map.upd (fold k) c), Out.val c)).2 ∧
         Inv (match alookup (fold k) t.ents with
-              | some _ => (s, Out.none)
-              | none => (setEnts s i t (aset (fold k) c t.ents), Out.none)).1 := by
+              | some v => (s, Out.val v)
+              | none => (setEnts s i t (aset (fold k) c t.ents), Out.val c)).1 := by
       intro c
       cases hl : alookup (fold k) t.ents with
       | some v => simp [dabs, hl, hi]
       | none =>
         simp only [absTab_map, dabs, hl]
-        refine ⟨?_, inv_setEnts hi ht (entsOk_aset _ hm.1 (fold_idem k))⟩
+        refine ⟨?_, trivial, inv_setEnts hi ht (entsOk_aset _ hm.1 (fold_idem k))⟩
         rw [abs_setEnts, dabs_aset]
     cases h with
     | none =>
-      simp only [step, specStep, abs_get, ht, Option.map_some]
-      exact core 0
+      have := core 0
+      refine ⟨?_, ?_, ?_⟩
+      · simp only [step, specStep, abs_get, ht, Option.map_some]; exact this.1
+      · simp only [step, specStep, abs_get, ht, Option.map_some]; exact this.2.1
+      · simp only [step, ht]; exact this.2.2
     | some h' =>
       cases hh : s.hs[h']? with
       | none => constructor <;> simp [step, specStep, ht, hh, hi]
       | some c =>
-        simp only [step, specStep, abs_get, ht, Option.map_some, abs_hs, hh]
-        exact core c
+        have := core c
+        refine ⟨?_, ?_, ?_⟩
+        · simp only [step, specStep, abs_get, ht, Option.map_some, abs_hs, hh]; exact this.1
+        · simp only [step, specStep, abs_get, ht, Option.map_some, abs_hs, hh]; exact this.2.1
+        · simp only [step, ht, hh]; exact this.2.2
 
 theorem ref_update (s : St) (i : Nat) (kvs : List (Name × Nat)) (hi : Inv s) : Ref s (.update i kvs) := by
   cases ht : s.tabs[i]? with
@@ -314,72 +306,53 @@ theorem ref_contains (s : St) (i : Nat) (k : Name) (hi : Inv s) : Ref s (.contai
   | none => constructor <;> simp [step, specStep, ht, hi]
   | some t => constructor <;> simp [step, specStep, ht, hi, dabs]
 
-theorem knownDelPop_del {s : St} {i : Nat} {k : Name} {t : Tab} (ht : s.tabs[i]? = some t) :
-    KnownDelPop s (.del i k) = (k != fold k && (alookup (fold k) t.ents).isSome) := by simp [KnownDelPop, ht]
-theorem knownDelPop_pop {s : St} {i : Nat} {k : Name} {t : Tab} (ht : s.tabs[i]? = some t) :
-    KnownDelPop s (.pop i k) = (k != fold k && (alookup (fold k) t.ents).isSome) := by simp [KnownDelPop, ht]
-theorem knownDelPop_popd {s : St} {i : Nat} {k : Name} {t : Tab} (ht : s.tabs[i]? = some t) :
-    KnownDelPop s (.popd i k) = (k != fold k && (alookup (fold k) t.ents).isSome) := by simp [KnownDelPop, ht]
-
-theorem ref_del (s : St) (i : Nat) (k : Name) (hi : Inv s) (hK : KnownDelPop s (.del i k) = false) : Ref s (.del i k) := by
+theorem ref_del (s : St) (i : Nat) (k : Name) (hi : Inv s) : Ref s (.del i k) := by
   cases ht : s.tabs[i]? with
   | none => constructor <;> simp [step, specStep, ht, hi]
   | some t =>
     have hm := hi.1 t (List.mem_of_getElem? ht)
-    rw [knownDelPop_del ht] at hK
-    have e := raw_lookup hm.1 hK
     cases hl : alookup (fold k) t.ents with
-    | none => rw [hl] at e; constructor <;> simp [step, specStep, ht, e, hl, dabs, hi]
+    | none => constructor <;> simp [step, specStep, ht, hl, dabs, hi]
     | some v =>
-      rw [hl] at e
-      have e2 := raw_erase hm.1 e
       constructor
-      · simp only [step, specStep, abs_get, ht, Option.map_some, e, absTab_map, dabs, hl]
-        rw [abs_setEnts, e2, dabs_aerase]
-      · simp [step, specStep, ht, e, hl, dabs]
-      · simp only [step, ht, e]; exact inv_setEnts hi ht (entsOk_aerase _ hm.1)
+      · simp only [step, specStep, abs_get, ht, Option.map_some, absTab_map, dabs, hl]
+        rw [abs_setEnts, dabs_aerase]
+      · simp [step, specStep, ht, hl, dabs]
+      · simp only [step, ht, hl]; exact inv_setEnts hi ht (entsOk_aerase _ hm.1)
 
-theorem ref_pop (s : St) (i : Nat) (k : Name) (hi : Inv s) (hK : KnownDelPop s (.pop i k) = false) : Ref s (.pop i k) := by
+theorem ref_pop (s : St) (i : Nat) (k : Name) (hi : Inv s) : Ref s (.pop i k) := by
   cases ht : s.tabs[i]? with
   | none => constructor <;> simp [step, specStep, ht, hi]
   | some t =>
     have hm := hi.1 t (List.mem_of_getElem? ht)
-    rw [knownDelPop_pop ht] at hK
-    have e := raw_lookup hm.1 hK
     cases hl : alookup (fold k) t.ents with
-    | none => rw [hl] at e; constructor <;> simp [step, specStep, ht, e, hl, dabs, hi]
+    | none => constructor <;> simp [step, specStep, ht, hl, dabs, hi]
     | some v =>
-      rw [hl] at e
-      have e2 := raw_erase hm.1 e
-      have e3 : abs (setEnts s i t (aerase k t.ents)) = aSetMap (abs s) i (absTab t) ((absTab t).map.del (fold k)) := by
-        rw [abs_setEnts, e2, dabs_aerase]; rfl
+      have e3 : abs (setEnts s i t (aerase (fold k) t.ents)) = aSetMap (abs s) i (absTab t) ((absTab t).map.del (fold k)) := by
+        rw [abs_setEnts, dabs_aerase]; rfl
       constructor
-      · simp only [step, specStep, abs_get, ht, Option.map_some, e, absTab_map, dabs, hl]
+      · simp only [step, specStep, abs_get, ht, Option.map_some, absTab_map, dabs, hl]
         rw [← absTab_map, ← e3]; exact (ret_abs _ _).1
-      · simp only [step, specStep, abs_get, ht, Option.map_some, e, absTab_map, dabs, hl]
+      · simp only [step, specStep, abs_get, ht, Option.map_some, absTab_map, dabs, hl]
         rw [← absTab_map, ← e3]; exact (ret_abs _ _).2
-      · simp only [step, ht, e]; exact ret_inv _ _ (inv_setEnts hi ht (entsOk_aerase _ hm.1))
+      · simp only [step, ht, hl]; exact ret_inv _ _ (inv_setEnts hi ht (entsOk_aerase _ hm.1))
 
-theorem ref_popd (s : St) (i : Nat) (k : Name) (hi : Inv s) (hK : KnownDelPop s (.popd i k) = false) : Ref s (.popd i k) := by
+theorem ref_popd (s : St) (i : Nat) (k : Name) (hi : Inv s) : Ref s (.popd i k) := by
   cases ht : s.tabs[i]? with
   | none => constructor <;> simp [step, specStep, ht, hi]
   | some t =>
     have hm := hi.1 t (List.mem_of_getElem? ht)
-    rw [knownDelPop_popd ht] at hK
-    have e := raw_lookup hm.1 hK
     cases hl : alookup (fold k) t.ents with
-    | none => rw [hl] at e; constructor <;> simp [step, specStep, ht, e, hl, dabs, hi]
+    | none => constructor <;> simp [step, specStep, ht, hl, dabs, hi]
     | some v =>
-      rw [hl] at e
-      have e2 := raw_erase hm.1 e
-      have e3 : abs (setEnts s i t (aerase k t.ents)) = aSetMap (abs s) i (absTab t) ((absTab t).map.del (fold k)) := by
-        rw [abs_setEnts, e2, dabs_aerase]; rfl
+      have e3 : abs (setEnts s i t (aerase (fold k) t.ents)) = aSetMap (abs s) i (absTab t) ((absTab t).map.del (fold k)) := by
+        rw [abs_setEnts, dabs_aerase]; rfl
       constructor
-      · simp only [step, specStep, abs_get, ht, Option.map_some, e, absTab_map, dabs, hl]
+      · simp only [step, specStep, abs_get, ht, Option.map_some, absTab_map, dabs, hl]
         rw [← absTab_map, ← e3]; exact (ret_abs _ _).1
-      · simp only [step, specStep, abs_get, ht, Option.map_some, e, absTab_map, dabs, hl]
+      · simp only [step, specStep, abs_get, ht, Option.map_some, absTab_map, dabs, hl]
         rw [← absTab_map, ← e3]; exact (ret_abs _ _).2
-      · simp only [step, ht, e]; exact ret_inv _ _ (inv_setEnts hi ht (entsOk_aerase _ hm.1))
+      · simp only [step, ht, hl]; exact ret_inv _ _ (inv_setEnts hi ht (entsOk_aerase _ hm.1))
 
 theorem absTab_clone (t : Tab) (par : Option Nat) (h : EntsOk t.ents) :
     absTab ⟨updEnts [] t.ents, par, false, none⟩ = ⟨(absTab t).map, par, false⟩ := by
@@ -388,7 +361,7 @@ theorem absTab_clone (t : Tab) (par : Option Nat) (h : EntsOk t.ents) :
   simp only [absTab]
   rw [this]
 
-theorem ref_clone (s : St) (i : Nat) (pk : PK) (hi : Inv s) (hK : KnownClone s (.clone i pk) = false) : Ref s (.clone i pk) := by
+theorem ref_clone (s : St) (i : Nat) (pk : PK) (hi : Inv s) : Ref s (.clone i pk) := by
   cases ht : s.tabs[i]? with
   | none => constructor <;> simp [step, specStep, ht, hi]
   | some t =>
@@ -410,21 +383,8 @@ theorem ref_clone (s : St) (i : Nat) (pk : PK) (hi : Inv s) (hK : KnownClone s (
           by simpa [step, ht, hp] using this.2⟩
       · constructor <;> simp [step, specStep, ht, hp, hi]
     | inherit =>
-      simp only [KnownClone, ht] at hK
-      cases hpar : t.parent with
-      | none =>
-        have := happ none
-        exact ⟨by simpa [step, specStep, ht, hpar] using this.1, by simp [step, specStep, ht, hpar],
-          by simpa [step, ht, hpar] using this.2⟩
-      | some p =>
-        rw [hpar] at hK
-        cases hpt : s.tabs[p]? with
-        | none => simp [hpt] at hK
-        | some pt =>
-          simp only [hpt] at hK
-          have := happ (some p)
-          exact ⟨by simpa [step, specStep, ht, hpar, hpt, hK] using this.1, by simp [step, specStep, ht, hpar, hpt, hK],
-            by simpa [step, ht, hpar, hpt, hK] using this.2⟩
+      have := happ t.parent
+      exact ⟨by simpa [step, specStep, ht] using this.1, by simp [step, specStep, ht], by simpa [step, ht] using this.2⟩
 
 theorem ref_setparent (s : St) (i : Nat) (p : Option Nat) (hi : Inv s) : Ref s (.setparent i p) := by
   cases ht : s.tabs[i]? with
@@ -521,8 +481,7 @@ theorem ref_symscope (s : St) (i : Nat) (k : Name) (hi : Inv s) : Ref s (.symsco
       have := symscopeF_abs hi.1 hi.2 (s.tabs.length + 1) i k t ht hsc
       constructor <;> simp [step, specStep, ht, hsc, hi, this]
 
-theorem ref_reparent (s : St) (i : Nat) (p : Option Nat) (hi : Inv s) (hK : KnownReparent s (.reparent i p) = false) :
-    Ref s (.reparent i p) := by
+theorem ref_reparent (s : St) (i : Nat) (p : Option Nat) (hi : Inv s) : Ref s (.reparent i p) := by
   cases ht : s.tabs[i]? with
   | none => constructor <;> simp [step, specStep, ht, hi]
   | some t =>
@@ -530,34 +489,16 @@ theorem ref_reparent (s : St) (i : Nat) (p : Option Nat) (hi : Inv s) (hK : Know
     have hv := abs_scopedParent s p
     by_cases hc : (!t.isScope || !scopedParent s p) = true
     · constructor <;> simp only [step, specStep, abs_get, ht, Option.map_some, absTab_isScope, hv, hc, if_true] <;> first | rfl | exact hi
-    · have hsc : t.isScope = true := by simp at hc; exact hc.1
-      have hsp : scopedParent s p = true := by simp at hc; exact hc.2
-      cases p with
-      | some q =>
-        refine ⟨?_, ?_, ?_⟩
-        · simp only [step, specStep, abs_get, ht, Option.map_some, absTab_isScope, hv, hc]
-          simp only [Bool.false_eq_true, if_false]
-          rw [abs_setTab]; rfl
-        · simp [step, specStep, ht, hv, hc]
-        · simp only [step, ht, hc]
-          simp only [Bool.false_eq_true, if_false]
-          refine inv_setTab hi ht ⟨hm.1, fun _ => rfl⟩ rfl (fun _ q' hq => ?_)
-          simp only at hq; cases hq
-          exact scopedParent_some hsp
-      | none =>
-        have hpn : t.parent = none := by
-          simp only [KnownReparent, ht, hsc, Bool.true_and] at hK
-          cases hp : t.parent with
-          | none => rfl
-          | some _ => simp [hp] at hK
-        refine ⟨?_, ?_, ?_⟩
-        · simp only [step, specStep, abs_get, ht, Option.map_some, absTab_isScope, hv, hc]
-          simp only [Bool.false_eq_true, if_false]
-          rw [abs_setTab]
-          simp only [absTab, hpn]
-        · simp [step, specStep, ht, hv, hc]
-        · simp only [step, ht, hc]
-          simp only [Bool.false_eq_true, if_false]
-          exact inv_setTab hi ht ⟨hm.1, fun _ => hpn.symm⟩ rfl (fun _ q' hq => by simp at hq)
+    · have hsp : scopedParent s p = true := by simp at hc; exact hc.2
+      refine ⟨?_, ?_, ?_⟩
+      · simp only [step, specStep, abs_get, ht, Option.map_some, absTab_isScope, hv, hc]
+        simp only [Bool.false_eq_true, if_false]
+        rw [abs_setTab]; rfl
+      · simp [step, specStep, ht, hv, hc]
+      · simp only [step, ht, hc]
+        simp only [Bool.false_eq_true, if_false]
+        refine inv_setTab hi ht ⟨hm.1, fun _ => rfl⟩ rfl (fun _ q hq => ?_)
+        simp only at hq; subst hq
+        exact scopedParent_some hsp
 
 end LokiModel.C12
